@@ -101,9 +101,9 @@ prop("C17",
      level="exploration",
      technique="bounded exhaustive enumeration (E2) of all ordered pairs of fragment strings with a stack-fill differential for determinism, ASan/UBSan for safety, and the statement's ordering laws on all pairs of generated well-formed versions",
      rule="all ordered pairs (x,y) of strings of <= N fragments over the fragment alphabet: compare(x,y) is run under two stack fills and compare(y,x) once; checks: termination, "
-          "sanitizer silence, determinism, antisymmetry, reflexivity; all ordered pairs of well-formed versions: the four ordering laws where they apply; "
+          "sanitizer silence, determinism, antisymmetry, reflexivity; all ordered pairs of well-formed versions: the four ordering laws where they apply; all ordered pairs of 29 number spellings (zero-padded, 18..34 digits, around 2^32/2^63/2^64) in 5 version forms against decimal comparison; "
           "non-trivial = pairs that compare unequal / well-formed pairs to which a law applies",
-     bounds={"quick": "21+12 fragments, <=2 per side (1.19 M pairs); well-formed: 3 numbers (3.8 M pairs)",
+     bounds={"quick": "21+12 fragments, <=2 per side (1.19 M pairs); well-formed: 3 numbers (5.9 M pairs); 4205 number-spelling pairs",
              "thorough": "same + 14-fragment core, <=3 per side (8.7 M pairs); well-formed: 5 numbers (81 M pairs)"},
      runs=[dict(name="h_vercmp", sources=["harness/h_vercmp.c"], profile="asan", args={"quick": ["--frags=2", "--nn=3"], "thorough": ["--frags=2", "--nn=5"]}),
            dict(name="h_vercmp_plain", sources=["harness/h_vercmp.c"], profile="plain0", args={"quick": ["--frags=2", "--nn=3"], "thorough": ["--frags=2", "--nn=4"]}),
@@ -115,8 +115,8 @@ prop("C18",
      level="exploration",
      technique="bounded exhaustive enumeration (E2) over (length, alignment, seed, content pattern) against independent reference implementations; keys end at an ASan redzone at every alignment and sit against PROT_NONE pages on both sides; three builds (ASan -O1, gcc -O0, gcc -O2)",
      rule="every (length 0..N, alignment 0..7, seed in {0,1,0xf721b64d,0xffffffff}, pattern in {00.., FF.., counting, each single byte set to 0x01/0x80}) case runs all six hashes "
-          "against references written from the published definitions; over-/under-reads fault at a redzone or PROT_NONE page; non-trivial = keys of length > 0",
-     bounds={"quick": "lengths 0..40 (55 k cases) + all 1-byte keys", "thorough": "lengths 0..100 (333 k cases) + all 1- and 2-byte keys"},
+          "against references written from the published definitions; over-/under-reads fault at a redzone or PROT_NONE page; jenkins32 also with a 'table + i' expression over 32-bit words; keys of 2^29..2^30 words and 2^31..2^32-1 bytes in a lazily mapped region (plain -O2 build); non-trivial = keys of length > 0",
+     bounds={"quick": "lengths 0..40 (55 k cases) + all 1-byte keys + 8 keys of 2 GiB", "thorough": "lengths 0..100 (333 k cases) + all 1- and 2-byte keys + 25 keys of 2..4 GiB"},
      assumptions=["little-endian host (jenkins == jenkinsLE is asserted)", "spifhash_jenkins32 is driven with a length in 32-bit words (keys at every byte alignment; the host allows unaligned 32-bit loads)"],
      runs=[dict(name="h_hash", sources=["harness/h_hash.c"], profile="asan", args={"quick": ["--maxlen=40"], "thorough": ["--maxlen=100"]}),
            # unoptimised and -O2 builds: a load the optimiser drops at -O1 is still a read past the key in the other builds (PROT_NONE pages catch it)
@@ -190,7 +190,7 @@ prop("C15",
      level="model_checking",
      technique="explicit-state BFS over tracked allocation histories through the real MALLOC/CALLOC/REALLOC/STRDUP/FREE macros vs a dictionary model of the tracker table (mem.c compiled into the harness TU); allocator interposed to choose realloc moves/stays",
      rule="E1: BFS over histories of the five tracked operations on a small pointer pool incl. REALLOC of NULL / to 0, unknown and already-freed pointers, with the allocator's move/stay answer chosen by the harness, "
-          "to a fixpoint of (slot size/line/tracked, dead-pointer) states, for runtime levels 5 and 4 in a DEBUG=5 build and for a DEBUG=4 build; after every step the private table equals the model as a set "
+          "to a fixpoint of (slot size/line/tracked, dead-pointer) states, for runtime levels 5, 4 and 0xffffffff in a DEBUG=5 build and for a DEBUG=4 build; after every step the private table equals the model as a set "
           "(address, size, 20-char file, line); plus the C06 object programs in a DEBUG=5 build at level 5: table empty after every teardown; non-trivial = distinct states",
      bounds={"quick": "pool of 2 pointers, fixpoint; object programs depth 2", "thorough": "pool of 3 pointers, fixpoint; object programs depth 3"},
      runs=[dict(name="h_memtrack5", sources=["harness/h_memtrack.c"], profile="asan_dbg5", exclude=["mem.c"], wraps=_MW, args={"quick": ["--pool=2"], "thorough": ["--pool=3"]}),
@@ -254,8 +254,8 @@ prop("C16",
      technique="exhaustive walk of the finite (entry point x guarded pointer parameter x runtime debug level) matrix generated from the source's own guards (union with a pinned table), each cell in a forked child so the fatal-error path is observable",
      rule="tools/gen_nullmatrix.py parses every definition in the anchored files (and the class-table methods of the three container classes) and its ASSERT/REQUIRE/COMP_CHECK_NULL guards; every (function, guarded parameter) row of the union "
           "of the pinned and the freshly generated table is called with that parameter NULL and the others valid at runtime levels 0, 1 and 3: level 0 must return the stated failure value, leave the other arguments and the heap unchanged; "
-          "level >= 1 may instead exit through the fatal-error path with its diagnostic (ASSERT guards only); never a signal; non-trivial = every cell",
-     bounds={"quick": "full matrix (~430 rows x 3 levels)", "thorough": "same: the matrix is finite and walked completely in both tiers"},
+          "level >= 1 may instead exit through the fatal-error path with its diagnostic (ASSERT guards only); never a signal; rows of the configuration module run on an initialised subsystem and ordinary use afterwards (next context/builtin/file-state/context-state IDs, context lookup, handler calls) must be what it is without the refused call; non-trivial = every cell",
+     bounds={"quick": "full matrix (~690 rows incl. position and empty-object variants x 4 cells: levels 0, 1, 3 and level 1 silenced)", "thorough": "same: the matrix is finite and walked completely in both tiers"},
      assumptions=["pthreads.c and module.c entry points are outside the anchored scope", "DEBUG=4 build (the configured default)"],
      runs=[dict(name="h_null", sources=["harness/h_null.c"], gen="nullmatrix", profile="asan", exclude=["array.c", "linked_list.c", "dlinked_list.c"], args={})],
      deadline={"quick": 240, "thorough": 1200})
@@ -266,9 +266,9 @@ prop("C20",
      level="exploration",
      technique="exhaustive walk of the configuration matrix (8 compile-time DEBUG builds + 2 with NDEBUG and -O2 x probe x runtime level x silent), each cell in a forked child with stderr on a pipe, against a table-driven gate model",
      rule="for each build DEBUG in {undefined,0,1,2,3,4,5,9999} the probe program and the library are compiled with that DEBUG; every (macro probe x runtime level in {0..6,9999}) cell and every (output primitive x level x silent) cell runs in a child: "
-          "bytes written to stderr, side-effect counters in the macro arguments/conditions, the return value, whether the function continued and the exit status must match the gate model; thorough adds one real in-library statement per D_* family; "
+          "bytes written to stderr, side-effect counters in the macro arguments/conditions, the return value, whether the function continued and the exit status must match the gate model; a condition whose text holds \"100%%\" keeps both percent signs in the diagnostic; thorough adds one real in-library statement per D_* family; "
           "non-trivial = every executed cell",
-     bounds={"quick": "10 builds x 29 probes x 8 levels x silent {off,on} x history {fresh process, after refused output calls}", "thorough": "same + 4 in-library statements per build"},
+     bounds={"quick": "10 builds x 31 probes x 8 levels x silent {off,TRUE,0x100} x history {fresh process, after four refused output calls}", "thorough": "same + 4 in-library statements per build"},
      runs=[dict(name="h_gate_" + b, sources=["harness/h_gate.c"], profile=b, args={"quick": ["--build=" + b], "thorough": ["--build=" + b]}) for b in _GATE_BUILDS],
      deadline={"quick": 300, "thorough": 1200})
 
